@@ -113,7 +113,7 @@ UNITS += [
          block_sig="fn into_index_slot(mut tc: TypeIndexCollector) -> (r: TypeIndex)", block_tail="",
          hints=[
              ("before", "match &mut tc.entries {", "            let ghost full0 = tc.entries.full();"),
-             ("before", "let packs = ", """            proof {
+             ("before", "TypeIndex {", """            proof {
                 let full1 = tc.entries.full();
                 full0.to_multiset_ensures();
                 full1.to_multiset_ensures();
